@@ -115,7 +115,7 @@ def check_reuse(n, prog, edit, method, env, acc):
     """process(); edit base in place; process() again on the same object; repeated fidelity queries."""
     case = {"scenario": "reuse", "n_qubits": n, "prog": prog, "edit": edit, "method": method, "seed": env.seed}
     base = tomo.build_base(n, prog)
-    acc.tick("executions", 2); acc.tick("transitions", 2)
+    acc.tick("executions", 2); acc.tick("transitions", 2); acc.tick("reuse_scenarios")
     try:
         if method == "GF":
             g = GateFidelity(n, base, experiment_for(n))
@@ -170,7 +170,7 @@ def run(tier, seed):
 
     def shard_fn(js):
         acc = kernel.Acc()
-        if js and js[0] is jobs[-1]:
+        if js and js[0] is jobs[0]:
             for n, prog, edit, m in reuse:
                 if edit[0][0][0] == "SWAP":
                     continue
